@@ -315,7 +315,7 @@ def run(ctx):
             report(key, "re-written file does not compile: " + e1[0][1], {"stream": "corpus", "file": str(f), "written": w1, "gfortran": e1[:3]})
 
     # ------------------------------------------------------------------ transformed programs
-    npg = ctx.pick(30, 500)
+    npg = ctx.pick(20, 400)
     for i in range(npg):
         src, _mod = progs.gen_program(rng, i)
         try:
@@ -349,46 +349,56 @@ def run(ctx):
     ctx.log("programs done, failing=%d" % fails)
 
     # ------------------------------------------------------------------ files
-    files = rt.corpus_files(core.REPO)
-    if not ctx.thorough:
-        files = ctx.rng("files").sample(files, 40)
-    nfile_ok = 0
-    for f in files:
-        try:
-            src = Path(f).read_text(errors="replace")
-        except OSError:
-            continue
-        if len(src) > 200000:
-            continue
-        ok0, _ = progs.gfortran(ctx.scratch, "f_orig", src)
-        ctx.hist("file_original", "compiles" if ok0 else "needs-other-modules-or-implicit")
-        if not ok0:
-            continue
-        r = rt.roundtrip(path=str(f), limit=ctx.pick(20, 60))
-        if "w1" not in r:
-            ctx.hist("file_written", r["status"])
-            continue
-        nfile_ok += 1
-        ok1, e1 = progs.gfortran(ctx.scratch, "f_w1", r["w1"])
-        ctx.count(("file", str(f)), True)
-        ctx.hist("file_written", "compiles" if ok1 else "rejected")
-        if not ok1:
-            key = classify_compile(r["w1"], e1, "reader+writer")
-            rel = str(f).replace(str(core.REPO) + "/", "")
-            if is_decl_key(key):
-                report(key, "re-written file does not compile: " + e1[0][1],
-                       {"stream": "files", "file": rel, "gfortran": e1[:3], "written_head": r["w1"][:3000]})
-            else:
-                ctx.hist("compile_errors_not_about_declarations", "%s|%s" % (rel, key))
-    ctx.notes["files_compiled_standalone"] = nfile_ok
-    ctx.log("files done, failing=%d" % fails)
+    infra = None
+    try:
+        files = rt.corpus_files(core.REPO)
+        inc = []
+        if ctx.thorough:
+            infra = build_infra(ctx)
+            if infra:
+                inc = infra[1]
+        else:
+            files = [f for f in files if standalone_candidate(f)]
+        nfile_ok = 0
+        for f in files:
+            try:
+                src = Path(f).read_text(errors="replace")
+            except OSError:
+                continue
+            if len(src) > 200000:
+                continue
+            ok0, _ = progs.gfortran(ctx.scratch, "f_orig", src, incdirs=inc)
+            ctx.hist("file_original", "compiles" if ok0 else "needs-other-modules-or-implicit-typing")
+            if not ok0:
+                continue
+            r = rt.roundtrip(path=str(f), limit=ctx.pick(20, 60))
+            if "w1" not in r:
+                ctx.hist("file_written", r["status"])
+                continue
+            nfile_ok += 1
+            ok1, e1 = progs.gfortran(ctx.scratch, "f_w1", r["w1"], incdirs=inc)
+            ctx.count(("file", str(f)), True)
+            ctx.hist("file_written", "compiles" if ok1 else "rejected")
+            if not ok1:
+                key = classify_compile(r["w1"], e1, "reader+writer")
+                rel = str(f).replace(str(core.REPO) + "/", "")
+                if is_decl_key(key):
+                    report(key, "re-written file does not compile: " + e1[0][1],
+                           {"stream": "files", "file": rel, "gfortran": e1[:3], "written_head": r["w1"][:3000]})
+                else:
+                    ctx.hist("compile_errors_not_about_declarations", "%s|%s" % (rel, key))
+        ctx.notes["files_compiled_before_and_rewritten"] = nfile_ok
+        ctx.log("files done, failing=%d" % fails)
 
-    # ------------------------------------------------------------------ PSy-layer generation (thorough)
-    if ctx.thorough:
-        try:
-            psy_layer(ctx, report)
-        except Exception as e:      # pylint: disable=broad-except
-            ctx.notes["psy_layer"] = "skipped: %s: %s" % (type(e).__name__, str(e)[:200])
+        # -------------------------------------------------------------- PSy-layer generation (thorough)
+        if ctx.thorough and infra:
+            try:
+                psy_layer(ctx, report, infra)
+            except Exception as e:      # pylint: disable=broad-except
+                ctx.notes["psy_layer"] = "skipped: %s: %s" % (type(e).__name__, str(e)[:200])
+    finally:
+        if infra:
+            shutil.rmtree(infra[0], ignore_errors=True)
 
     # ------------------------------------------------------------------ model evaluation
     bad = ctx.coq_eval_failing(HEADER, "case", "agrees", coq_cases, shard=ctx.pick(4000, 2500))
@@ -405,51 +415,73 @@ def run(ctx):
                       no_input=True)
 
 
-def psy_layer(ctx, report):
+INTRINSIC_MODULES = {"iso_c_binding", "iso_fortran_env", "omp_lib", "openacc", "ieee_arithmetic"}
+
+
+def standalone_candidate(path):
+    """Cheap text filter: every module the file uses is defined in the file itself (or intrinsic)."""
+    try:
+        s = Path(path).read_text(errors="replace").lower()
+    except OSError:
+        return False
+    used = set(re.findall(r"^\s*use\s*(?:,\s*intrinsic\s*)?(?:::)?\s*(\w+)", s, re.M))
+    defined = set(re.findall(r"^\s*module\s+(\w+)", s, re.M)) - {"procedure"}
+    return not (used - defined - INTRINSIC_MODULES)
+
+
+def build_infra(ctx):
+    """Build the bundled LFRic infrastructure in a scratch directory outside /repo and /verif.
+    Returns (workdir, include dirs) or None."""
+    base = core.REPO / "src/psyclone/tests/test_files/dynamo0p3"
+    work = Path("/var/tmp/C04-infra-%d" % os.getpid())
+    shutil.rmtree(work, ignore_errors=True)
+    shutil.copytree(base / "infrastructure", work / "infrastructure")
+    rc, out = core.sh("make F90=gfortran", cwd=str(work / "infrastructure"), timeout=900)
+    if rc != 0:
+        ctx.notes["infrastructure"] = "build failed: " + out[-300:]
+        shutil.rmtree(work, ignore_errors=True)
+        return None
+    inc = sorted({str(p.parent) for p in (work / "infrastructure").rglob("*.mod")})
+    ctx.notes["infrastructure"] = "built, %d module directories" % len(inc)
+    return work, inc
+
+
+def psy_layer(ctx, report, infra):
     """LFRic PSy layers for a few test invokes, compiled against the bundled infrastructure."""
     from psyclone.parse.algorithm import parse
     from psyclone.psyGen import PSyFactory
     base = core.REPO / "src/psyclone/tests/test_files/dynamo0p3"
-    work = Path("/var/tmp/C04-psy-%d" % os.getpid())
-    try:
-        shutil.copytree(base / "infrastructure", work / "infrastructure")
-        rc, out = core.sh("make F90=gfortran", cwd=str(work / "infrastructure"), timeout=600)
-        if rc != 0:
-            ctx.notes["psy_layer"] = "infrastructure build failed"
-            return
-        inc = [str(p) for p in (work / "infrastructure").rglob("*") if p.is_dir()] + [str(work / "infrastructure")]
-        algs = ["1_single_invoke.f90", "1.2_multi_invoke.f90", "4_multikernel_invokes.f90", "15.1.1_X_plus_Y_builtin.f90",
-                "19.1_single_stencil.f90", "10_operator.f90", "1.5.1_single_invoke_write_multi_fs.f90", "3_multi_invokes.f90"]
-        n = 0
-        for alg in algs:
-            if not (base / alg).exists():
+    work, inc = infra
+    algs = ["1_single_invoke.f90", "1.2_multi_invoke.f90", "4_multikernel_invokes.f90", "15.1.1_X_plus_Y_builtin.f90",
+            "19.1_single_stencil.f90", "10_operator.f90", "1.5.1_single_invoke_write_multi_fs.f90", "3_multi_invokes.f90",
+            "1.0.1_single_named_invoke.f90", "15.7.2_setval_X_builtin.f90", "16.2_integer_scalar_sum.f90"]
+    n = 0
+    for alg in algs:
+        if not (base / alg).exists():
+            continue
+        for dm in (False, True):
+            try:
+                _, info = parse(str(base / alg), api="dynamo0.3")
+                psy = PSyFactory("dynamo0.3", distributed_memory=dm).create(info)
+                code = str(psy.gen)
+            except Exception as e:      # pylint: disable=broad-except
+                ctx.hist("psy_layer", "generation:" + type(e).__name__)
                 continue
-            for dm in (False, True):
-                try:
-                    _, info = parse(str(base / alg), api="dynamo0.3")
-                    psy = PSyFactory("dynamo0.3", distributed_memory=dm).create(info)
-                    code = str(psy.gen)
-                except Exception as e:      # pylint: disable=broad-except
-                    ctx.hist("psy_layer", "generation:" + type(e).__name__)
-                    continue
-                # kernels used: compile them first (same directory names <kernel>_mod.F90/f90)
-                for km in sorted(set(re.findall(r"use\s+(\w+_mod)\b", code, re.I))):
-                    for ext in (".F90", ".f90"):
-                        kf = base / (km + ext)
-                        if kf.exists() and not (work / (km + ".mod")).exists():
-                            core.sh(["gfortran", "-c", "-J", str(work), "-o", str(work / (km + ".o"))] +
-                                    [x for d in inc for x in ("-I", d)] + [str(kf)], cwd=str(work), timeout=120)
-                okc, errs = progs.gfortran(work, "psy_%d" % n, code, incdirs=inc + [str(work)])
-                n += 1
-                ctx.count(("psy", alg, dm), True)
-                ctx.hist("psy_layer", "compiles" if okc else "rejected")
-                if not okc:
-                    key = classify_compile(code, errs, "psy-layer")
-                    if is_decl_key(key):
-                        report(key, "generated PSy layer does not compile: " + errs[0][1],
-                               {"stream": "psy", "algorithm": alg, "dm": dm, "gfortran": errs[:3]})
-                    else:
-                        ctx.hist("compile_errors_not_about_declarations", "%s|%s" % (alg, key))
-        ctx.notes["psy_layer"] = "%d PSy layers compiled" % n
-    finally:
-        shutil.rmtree(work, ignore_errors=True)
+            for km in sorted(set(re.findall(r"use\s+(\w+_mod)\b", code, re.I))):
+                for ext in (".F90", ".f90"):
+                    kf = base / (km + ext)
+                    if kf.exists() and not (work / (km.lower() + ".mod")).exists():
+                        core.sh(["gfortran", "-c", "-J", str(work), "-o", str(work / (km + ".o"))] +
+                                [x for d in inc for x in ("-I", d)] + [str(kf)], cwd=str(work), timeout=120)
+            okc, errs = progs.gfortran(work, "psy_%d" % n, code, incdirs=inc + [str(work)])
+            n += 1
+            ctx.count(("psy", alg, dm), True)
+            ctx.hist("psy_layer", "compiles" if okc else "rejected")
+            if not okc:
+                key = classify_compile(code, errs, "psy-layer")
+                if is_decl_key(key):
+                    report(key, "generated PSy layer does not compile: " + errs[0][1],
+                           {"stream": "psy", "algorithm": alg, "dm": dm, "gfortran": errs[:3]})
+                else:
+                    ctx.hist("compile_errors_not_about_declarations", "%s|%s" % (alg, key))
+    ctx.notes["psy_layer"] = "%d PSy layers compiled" % n
